@@ -11,7 +11,8 @@ PROP = {'counts': {'quick': 7, 'thorough': 60},
          "replica's scan and last applied sequence at each settle are compared with the extracted ReplProto "
          'model; oracle = equality of the full scans within the bound for a running replica with the link '
          'up; non-trivial = at least one settle, >= 3 sequence numbers, a transaction or delete, and a '
-         'restart, cut, flush, transaction or more than 100 entries; distinct by case text',
+         'restart, cut, flush, transaction or more than 100 entries; distinct by case text'
+         ' Added later: idle op, idle-across-rotation, long-backlog and long-key workloads; a case during which the Go runtime ends the process (panic in a handler goroutine of the in-process primary) is a violation with that case as replay.',
  'assumptions': ['the replica is configured through replication.ReplicaConfig with RetryBaseDelay 300 ms '
                  '(default 1 s) and DialTimeout 2 s; everything else is what cmd/kevo passes (nil primary '
                  'config = defaults, ForceReadOnly)',
